@@ -183,6 +183,15 @@ class Taint:
             if self.kind_of(f, e.value) == "line" and \
                     not e.attr.startswith("_"):
                 return "text"
+            # self.<field> inside a line class: the value of a field, which
+            # at vlevel 0 is whatever the text held (used as a lookup key)
+            if isinstance(e.value, ast.Name) and f.self_name and \
+                    e.value.id == f.self_name and \
+                    e.attr in self.prog.field_names and \
+                    f.owner_cls is not None and any(
+                        self.prog.Line in k.mro
+                        for k in self.prog.leaves(f.owner_cls)):
+                return "key"
             return None
         if isinstance(e, ast.Subscript):
             k = self.kind_of(f, e.value)
@@ -1007,6 +1016,96 @@ def run(ctx):
                             "%s, whose length is not tested: IndexError "
                             "when the two lists of the input differ in "
                             "length" % (", ".join(lens), b))
+    ctx.exhaustive[R] = True
+
+    # ----------------------------------------------------------- file_decoding
+    R = "C07.file_decoding"
+    ctx.rule(R, "a file opened in text mode without an `errors=` policy is "
+             "read (iterated, next(), read*, readlines) only inside a try "
+             "whose handlers catch UnicodeDecodeError (or ValueError / "
+             "Exception): bytes that are not valid text must come out as a "
+             "library error", floor=1)
+    for f in reach_sorted:
+        files = {}
+        for n in walk_no_nested(f.node):
+            items = []
+            if isinstance(n, ast.With):
+                items = [(it.context_expr, it.optional_vars)
+                         for it in n.items]
+            elif isinstance(n, ast.Assign) and len(n.targets) == 1:
+                items = [(n.value, n.targets[0])]
+            for call, var in items:
+                if isinstance(call, ast.Call) and \
+                        isinstance(call.func, ast.Name) and \
+                        call.func.id == "open" and isinstance(var, ast.Name):
+                    mode = call.args[1] if len(call.args) > 1 else None
+                    for k in call.keywords:
+                        if k.arg == "mode":
+                            mode = k.value
+                    binary = isinstance(mode, ast.Constant) and \
+                        "b" in str(mode.value)
+                    policy = any(k.arg in ("errors",) for k in call.keywords)
+                    writing = isinstance(mode, ast.Constant) and any(
+                        c in str(mode.value) for c in "wax")
+                    if not binary and not policy and not writing:
+                        files[var.id] = call
+        if not files:
+            continue
+        # names bound to iter(file)
+        changed = True
+        while changed:
+            changed = False
+            for n in walk_no_nested(f.node):
+                if isinstance(n, ast.Assign) and len(n.targets) == 1 and \
+                        isinstance(n.targets[0], ast.Name) and \
+                        isinstance(n.value, ast.Call) and \
+                        isinstance(n.value.func, ast.Name) and \
+                        n.value.func.id in ("iter", "enumerate") and \
+                        n.value.args and \
+                        isinstance(n.value.args[0], ast.Name) and \
+                        n.value.args[0].id in files and \
+                        n.targets[0].id not in files:
+                    files[n.targets[0].id] = n.value
+                    changed = True
+
+        def guarded(node):
+            p = getattr(node, "_parent", None)
+            child = node
+            while p is not None and p is not f.node:
+                if isinstance(p, ast.Try) and child in p.body and any(
+                        exc.handler_names(h) & {"*", "Exception",
+                                                "UnicodeDecodeError",
+                                                "UnicodeError", "ValueError"}
+                        for h in p.handlers):
+                    return True
+                child, p = p, getattr(p, "_parent", None)
+            return False
+        for n in walk_no_nested(f.node):
+            reads = None
+            if isinstance(n, ast.For) and isinstance(n.iter, ast.Name) and \
+                    n.iter.id in files:
+                reads = "for ... in %s" % n.iter.id
+            elif isinstance(n, ast.Call) and isinstance(n.func, ast.Name) and \
+                    n.func.id in ("next", "list", "sum", "len") and n.args and \
+                    any(isinstance(x, ast.Name) and x.id in files
+                        for a in n.args for x in ast.walk(a)):
+                reads = unparse(n)[:40]
+            elif isinstance(n, ast.Call) and \
+                    isinstance(n.func, ast.Attribute) and \
+                    n.func.attr in ("read", "readline", "readlines") and \
+                    isinstance(n.func.value, ast.Name) and \
+                    n.func.value.id in files:
+                reads = unparse(n)[:40]
+            if reads is None:
+                continue
+            ctx.instance(R)
+            ok = guarded(n)
+            ctx.oblige(ok)
+            if not ok:
+                ctx.violation(R, f.short, reads,
+                              "reads a text-mode file outside a try that "
+                              "catches UnicodeDecodeError: a file that is "
+                              "not valid text raises a builtin exception")
     ctx.exhaustive[R] = True
 
     # ---------------------------------------------------- reserved_record_type
